@@ -24,7 +24,8 @@ func c42StubHashHost(hostname string, salt []byte) []byte {
 
 // c42Glob is the reference matcher: the textbook dynamic-programming definition of '*' (any
 // sequence, including empty, separators not special) and '?' (exactly one byte), as match.c's
-// match_pattern decides it.
+// match_pattern decides it; in particular a '*' matches the empty remainder ("host*" matches
+// "host", "*" matches ""), which golang/crypto does since fix 99cce8c.
 func c42Glob(pat, str []byte) bool {
 	np, ns := len(pat), len(str)
 	// m[i][j]: pat[i:] matches str[j:]
@@ -356,7 +357,8 @@ func Verif_C42_Check() { c42Check(false, 3) }
 
 // Verif_C42_CheckCA: the same with each line symbolically marked @cert-authority. OpenSSH
 // (hostfile.c check_hostkeys_by_key_or_type) consults @cert-authority lines only for certificate
-// host keys: for a plain key they neither accept nor appear among the mismatching lines.
+// host keys: for a plain key they neither accept nor appear among the mismatching lines
+// (required behaviour; golang/crypto was repaired in 73f02b1).
 func Verif_C42_CheckCA() { c42Check(true, 2) }
 
 // Verif_C42_Authority: IsHostAuthority(key, "h:22") is true iff some line is marked
